@@ -533,7 +533,7 @@ pub fn explore_history(h: &History, b: &Bounds) -> CrashStats {
 
     let mut handle = |cand: Candidate, synced: &Vec<u8>, st: &mut CrashStats, judged: &mut usize, capped: &mut bool| {
         st.candidates += 1;
-        if *judged >= b.max_images_per_history {
+        if *judged >= b.max_images_per_history || (*judged % 32 == 0 && par::over_budget()) {
             *capped = true;
             return;
         }
@@ -700,7 +700,7 @@ pub fn explore_history(h: &History, b: &Bounds) -> CrashStats {
         }
     }
     if capped {
-        st.capped.push(format!("{}: image cap {} reached", h.name, b.max_images_per_history));
+        st.capped.push(format!("{}: image cap {} or the wall-clock budget reached after {} images", h.name, b.max_images_per_history, judged));
     }
     st
 }
